@@ -289,7 +289,10 @@ class SpecMixin:
         idx = self.sev(st, node.slice, env, cmod)
         if isinstance(base, SeqTermV):
             i = self.spec_int(st, idx)
-            return SV(base.term[i])  # specification indices are non-negative (no Python wrap-around)
+            el = base.term[i]
+            # heap well-formedness: the elements of a sequence of this state are values that exist in this state
+            st.assume(z3.Implies(AND(i >= 0, i < z3.Length(base.term)), self.older(st, el)))
+            return SV(el)  # specification indices are non-negative (no Python wrap-around)
         if isinstance(base, TupleV):
             ci = self.const_int(idx)
             return base.items[ci]
